@@ -40,6 +40,14 @@ RULE = ('Also: an incoming listener that calls disconnect() and returns '
         'side of its frame, frames once each in queue order. '
         'Non-trivial: >= 2 listeners in one class with overlapping filters '
         'and >= 1 ignore rule that fires; distinct by (config, history).')
+RULE += (' ' +
+         'Added in later rounds: a bystander Connection with its own '
+         'listeners; one decorator object applied to several handlers; the '
+         'same callable registered twice; forced writes from an early '
+         'outgoing listener; listeners given as function, bound method of a '
+         'temporary object, partial, slotted callable object, classmethod '
+         '(the harness keeps no reference of its own); disconnect from an '
+         'incoming listener; ignore of login success. ')
 LEVEL_TEXT = ('Model-based testing of the documented listener dispatch over '
               'generated listener configurations x packet histories on an '
               'in-memory network, with event sequence numbers relating '
